@@ -76,6 +76,22 @@ func checkC18(w *World, r *Report) {
 		})
 		r.Check(okBase, "wiring.executor-base", FuncName(np)+": base environment", w.Pos(np.Pos()), "executor base ← os.Environ()", "the executor's base environment is not the process environment")
 	}
+	// who may write the runner's env: only its initialisation and the WithEnv option
+	for _, fn := range w.ModFuncs {
+		allInstrs(fn, func(in ssa.Instruction) {
+			st, ok := in.(*ssa.Store)
+			if !ok {
+				return
+			}
+			fa, ok := w.resolveAddr(st.Addr).(*ssa.FieldAddr)
+			if !ok || fieldOfAddr(fa).String() != "TaskRunner.env" {
+				return
+			}
+			val := w.AP(st.Val)
+			okV := strings.HasSuffix(val, "variables.NewVariables()") || (fn.Parent() != nil && strings.HasPrefix(fn.Parent().Name(), "With") && val == "arg0")
+			r.Check(okV, "wiring.runner-env-writers", FuncName(fn)+": TaskRunner.env := "+val, w.InstrPos(in), "initialised empty or set from the WithEnv option (the job's Env)", "the runner's environment is overwritten with "+val+": values of the job's pipeline-level env (or of the process) are masked for every task of the job")
+		})
+	}
 	// ---- WIRING: runner env ← job.Env (factory), task env ← taskDef.Env (graph builder)
 	ro.defsReads(r, "wiring")
 	stageWiring(w, r, ro, "wiring.stage")
